@@ -296,6 +296,10 @@ def run_book(ctx, bi, far):
                 f'=VLOOKUP({key},{S(table)},{k},FALSE)',
                 f'=MATCH({code(tsi, i, c1)},{S(cv(c1))},0)',
                 f'=XMATCH({code(tsi, i, c1)},{S(cv(c1))})',
+                # the same area read twice in one evaluation, once by a search from the end: the rows stay where they are
+                f'=INDEX({S(cv(c1))},XMATCH({code(tsi, i, c1)},{S(cv(c1))},0,-1))',
+                f'=IFERROR(XMATCH({code(tsi, i, c1)},{S(cv(c1))},0,-1),0)*1000+IFERROR(MATCH({code(tsi, k, c1)},{S(cv(c1))},0),0)',
+                f'=IFERROR(XMATCH({code(tsi, i, c2)},{S(cv(c2))},0,-1),0)*100000+INDEX({S(table)},{k},{c2})',
                 f'=INDEX({S(cv(c1))},MATCH({code(tsi, i, c2)},{S(cv(c2))},0))',
                 f'=SUMIF({S(cv(c2))},">{thr}")',
                 f'=SUMIF({S(cv(c2))},">={thr}",{S(cv(c1))})',
